@@ -275,10 +275,61 @@ def run(rep, facts):
         rep.ok("R5.4", "move_input", "copy_within(input_len - rem_len .. input_len, 0) when needed; input_len <- rem_len on all %d paths" % good, b.loc())
 
 
+def run_async_handoff(rep, facts):
+    """R5.5: between two requests of a connection the stream parser is not driven while it already stands at a record
+    boundary -- with no active stream it would skip (swallow) whatever part of the next request is already buffered."""
+    import events as E
+    from . import common
+    rep.rule("R5.5", "inside Request::close (after writeable) every stream::Parser::parse call lies on the false edge of an is_record_boundary() "
+                     "test taken since the previous parse: at a boundary the buffered look-ahead belongs to the next request and is handed over untouched")
+    if not facts.has_feature("async"):
+        rep.note("R5.5 skipped: the async layer is not compiled in this configuration")
+        return
+    g, ev = common.build(facts, "async_io::Token::run::{closure#0}")
+
+    def eff(n, m, lab):
+        gens, kills = set(), set()
+        if n.term["k"] == "switch" and isinstance(lab, tuple):
+            de = ev.switch_expr(n)
+            x = ir.peel(de) if de is not None else None
+            neg = False
+            while x is not None and x[0] == 'un' and x[1] == 'Not':
+                neg = not neg
+                x = ir.peel(x[2])
+            if x is not None and x[0] == 'call' and x[1] == "parser::stream::Parser::is_record_boundary":
+                truth = (lab[0] == 'otherwise') or (lab[0] == 'case' and lab[1] != 0)
+                if neg:
+                    truth = not truth
+                if not truth:
+                    gens.add("NOT_AT_BOUNDARY")
+        e = ev.at(n)
+        if e is not None and e[0] == 'PARSE' and e[1] == 'str':
+            kills.add("NOT_AT_BOUNDARY")
+        return gens, kills
+    md = common.must_dataflow(g, frozenset(), eff)
+    n_parse = 0
+    for n in g.all_nodes():
+        e = ev.at(n)
+        if e is None or e[0] != 'PARSE' or e[1] != 'str' or n.key not in md:
+            continue
+        stack = [fr.body.npath for fr in n.frame.stack()]
+        if not any(x.startswith("async_io::Request::close") for x in stack) or any(x.startswith("async_io::Request::writeable") for x in stack):
+            continue
+        n_parse += 1
+        key = "close/%s/parse-only-inside-a-record" % common.fn_of(n)
+        if "NOT_AT_BOUNDARY" in md[n.key]:
+            rep.ok("R5.5", key, "reached only after is_record_boundary() returned false (since the previous parse)", n.loc())
+        else:
+            rep.violation("R5.5", key, "close() can drive the stream parser (active stream None) while it is at a record boundary: records of the next request that are "
+                                       "already buffered are skipped instead of being handed to the next request's parser", n.loc())
+    rep.floor("R5.5", "stream-parser drives inside close()", n_parse, 1)
+
+
 def main(rep, tier):
     f = F.load(("async", "http"))
     rep.configs.append({"features": "async,http", "profile": "debug", "bodies": len(f.bodies)})
     check.guard(rep, "R5", run, f)
+    check.guard(rep, "R5.5", run_async_handoff, f)
     rep.floor("R5", "rule instances", len([i for i in rep.instances if i["status"] == "ok"]), 7)
     import check as _c
     _c.witnesses(rep, "C05", f)
